@@ -196,11 +196,11 @@ def _main(a, prop, seed, t0, scratch):
     ev = {
         "property_id": prop, "tier": a.tier, "seed": seed, "level": meta.get("level", "model_checking"),
         "coverage": {
-            "states": max(tot["paths"], 0), "transitions": max(tot["decisions"], 0),
+            "states": max(tot["paths"], 0), "transitions": tot["decisions"] + tot["obligations"],
             "traces_validated_against_impl": tot["witness"] + tot["spurious"] + tot["violations"],
             "samples": samples[:6] or [{"note": "no path reached a claim"}],
             "evaluations": tot["queries"], "distinct_nontrivial": tot["nontrivial"],
-            "rule": "one evaluation = one SMT query (path feasibility or obligation); a path is a maximal feasible sequence of data-dependent branch outcomes of the real code; it is counted non-trivial if it took at least one symbolic decision or needed at least one non-syntactic solver obligation, and distinct by its decision sequence within its harness",
+            "rule": "states = feasible paths of the real code explored symbolically; transitions = data-dependent branch decisions taken on them plus obligations stated at their ends; one evaluation = one SMT query (path feasibility or obligation); a path is a maximal feasible sequence of data-dependent branch outcomes of the real code; it is counted non-trivial if it took at least one symbolic decision or needed at least one non-syntactic solver obligation, and distinct by its decision sequence within its harness",
             "obligations": tot["obligations"], "discharged": tot["discharged"], "discharged_syntactically": tot["trivial"], "discharged_via_linear_form_abstraction": tot["via_abs"],
             "inconclusive": tot["inconclusive"], "spurious_models_not_reproduced": tot["spurious"],
             "feasible_paths": tot["paths"], "infeasible_prefixes": tot["infeasible"], "symbolic_forks": tot["sym_decisions"],
